@@ -78,6 +78,59 @@ def _execute_normal_form(repo: Repo) -> ast.FunctionDef:
     return nf
 
 
+def _helper_of_execute(repo: Repo, name: str) -> Tuple[str, str, ast.AST]:
+    """(file, qualified name, def) of the helper execute() calls as ``self.<name>(..)`` / ``<name>(..)``: found from
+    the call site through call resolution, so a method that became a module-level function (or the reverse, or
+    moved to a base class / another module) is still the anchor."""
+    cache = repo.__dict__.setdefault("_c06_helpers", {})
+    if name in cache:
+        return cache[name]
+    omod = repo.module(ORCH)
+    raw = repo.func(ORCH, EXECUTE)
+    found: List[Tuple[object, ast.AST]] = []
+    todo, seen_fns = [raw], {id(raw)}
+    while todo and not found:
+        f = todo.pop(0)
+        fmod = repo.module_of(f)
+        for c in calls_in(f, include_nested=True):
+            try:
+                targets = [t for t in repo.resolve_call(fmod, c) if isinstance(t[1], FuncNode)]
+            except Exception:
+                targets = []
+            if call_attr(c) == name:
+                concrete = [t for t in targets if not _is_abstract(t[1])] or targets
+                if concrete:
+                    found.append(concrete[0])
+                    break
+            elif fmod is omod:
+                # a private helper of the orchestrator module that execute delegates to
+                for m_, t_ in targets:
+                    if m_ is omod and t_.name.startswith("_") and not t_.name.startswith("__") and id(t_) not in seen_fns and len(seen_fns) < 40:
+                        seen_fns.add(id(t_))
+                        todo.append(t_)
+    if not found:
+        for q in (f"SemantivaOrchestrator.{name}", name):
+            d = repo.maybe_func(ORCH, q)
+            if d is not None:
+                found.append((omod, d))
+                break
+    if not found:
+        raise AnalysisError(f"execute(): the helper `{name}` it calls was not found (anchor vanished)")
+    m_, d = found[0]
+    cache[name] = (m_.rel, qualname_of(d), d)
+    return cache[name]
+
+
+def _spec_param_of(callee: ast.AST) -> Optional[str]:
+    """First parameter after the receiver (none for a module-level / static function)."""
+    from ..engine import parent
+    pos = [x.arg for x in callee.args.posonlyargs + callee.args.args]
+    deco = {dotted_name(d) for d in getattr(callee, "decorator_list", [])}
+    if isinstance(parent(callee), ast.ClassDef) and "staticmethod" not in deco and pos:
+        pos = pos[1:]
+    return pos[0] if pos else None
+
+
 def _trace_tainted(fn: ast.FunctionDef) -> Set[str]:
     """Locals whose value is derived from the trace parameter (nullness-propagating forms only); plain and
     annotated assignments."""
@@ -638,8 +691,9 @@ def run(repo: Repo, R: Report) -> None:
     for h in handlers:
         raises = [x for x in walk_no_nested(h) if isinstance(x, ast.Raise)]
         rets = [x for x in walk_no_nested(h) if isinstance(x, (ast.Return, ast.Continue, ast.Break))]
-        last_ok = bool(h.body) and isinstance(h.body[-1], ast.Raise) and h.body[-1].exc is None
-        R.check(last_ok and all(r.exc is None for r in raises) and not rets, r_rr, ORCH, EXECUTE, norm(h),
+        # `raise` / `raise <the caught name>` hand the caller the object that was caught
+        last_ok = bool(h.body) and isinstance(h.body[-1], ast.Raise) and _same_exception_raise(h.body[-1])
+        R.check(last_ok and all(_same_exception_raise(r) for r in raises) and not rets, r_rr, ORCH, EXECUTE, norm(h),
                 "the handler does not end in a bare `raise` (the caller sees a different exception, or none)", h.lineno)
 
     # ------------------------------------------------------------------ D1d/D1e the code that closes the bracket cannot itself fail
@@ -697,10 +751,7 @@ def run(repo: Repo, R: Report) -> None:
         d, kind, it, path = V.info[e.id]
         if kind != "iter" or d.ast is not loop:
             return False
-        if isinstance(it, ast.Call) and call_name(it) == "enumerate":
-            start = it.args[1] if len(it.args) > 1 else kwarg(it, "start")
-            return path == (0,) and (start is None or (isinstance(start, ast.Constant) and start.value == 0))
-        return path == () and pat.match("range(len(_ANY_))", it) is not None
+        return _is_position(it, tuple(path))
 
     def is_canonical_uuid_at_position(v: ast.AST) -> Optional[bool]:
         """True: the canonical uuid at the loop position; None: a constant (out-of-range fallback); False: anything else."""
@@ -802,55 +853,188 @@ def _bind_driver_args(repo: Repo, method: str, call: ast.Call) -> Dict[str, ast.
     return out
 
 
-def _visits_in_order(V: "_Vals", it: ast.AST) -> bool:
-    """``enumerate(<nodes>)`` / ``range(len(<nodes>))`` over what _instantiate_nodes returned, in list order."""
-    m = pat.match("enumerate(_S_)", it) or pat.match("enumerate(_S_, 0)", it) or pat.match("enumerate(_S_, start=0)", it) or pat.match("range(len(_S_))", it)
-    if m is None:
+def _is_position(it: ast.AST, path: Tuple[int, ...]) -> bool:
+    """The element at *path* of what iterating *it* yields is the 0-based position of the iteration:
+    ``enumerate(..)[0]``, ``range(len(..))``, ``itertools.count()``, or such a component of a ``zip``."""
+    if not isinstance(it, ast.Call):
         return False
+    name = (call_name(it) or "").split(".")[-1]
+    if name == "enumerate" and it.args:
+        start = it.args[1] if len(it.args) > 1 else kwarg(it, "start")
+        return path == (0,) and (start is None or (isinstance(start, ast.Constant) and start.value == 0))
+    if name == "range":
+        return path == () and (pat.match("range(len(_ANY_))", it) is not None or pat.match("range(0, len(_ANY_))", it) is not None)
+    if name == "count":
+        return path == () and not it.keywords and (not it.args or (len(it.args) == 1 and isinstance(it.args[0], ast.Constant) and it.args[0].value == 0))
+    if name == "zip" and path and not it.keywords and path[0] < len(it.args) and not any(isinstance(a, ast.Starred) for a in it.args):
+        return _is_position(it.args[path[0]], path[1:])
+    return False
+
+
+def _visits_in_order(V: "_Vals", it: ast.AST) -> bool:
+    """``enumerate(<nodes>)`` / ``range(len(<nodes>))`` / ``zip(<positions>, <nodes>, ..)`` over what
+    _instantiate_nodes returned, in list order."""
 
     def instantiated(e: ast.AST) -> bool:
         if isinstance(e, ast.Call) and call_name(e) in ("list", "tuple") and len(e.args) == 1 and not e.keywords:
             return instantiated(e.args[0])
         if isinstance(e, ast.Call) and call_name(e) == "zip" and e.args and not e.keywords:
-            return all(instantiated(a) for a in e.args)
+            parts = [a for a in e.args if not _is_position(a, ())]
+            return bool(parts) and all(instantiated(a) for a in parts) and all(positions_of_instantiated(a) for a in e.args if _is_position(a, ()))
         if isinstance(e, ast.Name) and e.id in V.info:
             _d, kind, v, _p = V.info[e.id]
             return kind in ("elem", "value") and isinstance(v, ast.Call) and call_attr(v) == "_instantiate_nodes"
         return False
 
+    def positions_of_instantiated(a: ast.AST) -> bool:
+        m_ = pat.match("range(len(_S_))", a) or pat.match("range(0, len(_S_))", a)
+        return m_ is None or instantiated(m_["_S_"])  # count() is unbounded; range(len(x)) must not cut the traversal short
+
+    m = pat.match("enumerate(_S_)", it) or pat.match("enumerate(_S_, 0)", it) or pat.match("enumerate(_S_, start=0)", it) or pat.match("range(len(_S_))", it)
+    if m is None:
+        return instantiated(it) if isinstance(it, ast.Call) and call_name(it) == "zip" else False
     return instantiated(m["_S_"])
 
 
+_EDGE = "__edge__"
+
+
+def _edge_traversal(loop: ast.For, is_edges, named=None) -> Optional[Dict[str, ast.AST]]:
+    """When *loop* visits every edge of the canonical spec once, in order: what its targets stand for, as expressions
+    over the placeholder ``__edge__`` ({"<dump of an expression of the body>" or "name:<n>": expression}).
+    ``for e in E`` / ``for i, e in enumerate(E)`` / ``for i in range(len(E))`` (the edge is ``E[i]``) /
+    ``for a, b in ((f(e), g(e)) for e in E)`` or the same as a list comprehension."""
+    edge = ast.Name(id=_EDGE, ctx=ast.Load())
+    it, tgt = loop.iter, loop.target
+    if isinstance(it, ast.Name) and named is not None:
+        it = named(it.id) or it  # a comprehension / generator that was given a name and is consumed only here
+    while isinstance(it, ast.Call) and call_name(it) in ("list", "tuple", "iter") and len(it.args) == 1 and not it.keywords:
+        it = it.args[0]
+    if is_edges(it):
+        return {f"name:{tgt.id}": edge} if isinstance(tgt, ast.Name) else None
+    if isinstance(it, ast.Call) and call_name(it) == "enumerate" and it.args and is_edges(it.args[0]):
+        start = it.args[1] if len(it.args) > 1 else kwarg(it, "start")
+        if isinstance(tgt, ast.Tuple) and len(tgt.elts) == 2 and all(isinstance(x, ast.Name) for x in tgt.elts):
+            env: Dict[str, ast.AST] = {f"name:{tgt.elts[1].id}": edge}
+            if start is None or (isinstance(start, ast.Constant) and start.value == 0):
+                env[ast.dump(ast.Subscript(value=it.args[0], slice=ast.Name(id=tgt.elts[0].id, ctx=ast.Load()), ctx=ast.Load()))] = edge
+            return env
+        return None
+    m = pat.match("range(len(_S_))", it) or pat.match("range(0, len(_S_))", it) or pat.match("range(0, len(_S_), 1)", it)
+    if m is not None and is_edges(m["_S_"]) and isinstance(tgt, ast.Name):
+        return {ast.dump(ast.Subscript(value=m["_S_"], slice=ast.Name(id=tgt.id, ctx=ast.Load()), ctx=ast.Load())): edge}
+    if isinstance(it, (ast.GeneratorExp, ast.ListComp)) and len(it.generators) == 1:
+        gen = it.generators[0]
+        if gen.ifs or gen.is_async or not isinstance(gen.target, ast.Name) or not is_edges(gen.iter):
+            return None
+        inner = _SubstNames({gen.target.id: edge})
+        if isinstance(tgt, ast.Name):
+            return {f"name:{tgt.id}": inner.visit(clone(it.elt))}
+        if isinstance(tgt, ast.Tuple) and isinstance(it.elt, ast.Tuple) and len(tgt.elts) == len(it.elt.elts) and all(isinstance(x, ast.Name) for x in tgt.elts):
+            return {f"name:{x.id}": inner.visit(clone(v)) for x, v in zip(tgt.elts, it.elt.elts)}
+    return None
+
+
+class _SubstEdge(ast.NodeTransformer):
+    def __init__(self, env: Dict[str, ast.AST]):
+        self.env = env
+
+    def visit(self, node):
+        if isinstance(node, ast.expr):
+            key = ast.dump(node)
+            if key in self.env:
+                return clone(self.env[key])
+            if isinstance(node, ast.Name) and isinstance(node.ctx, ast.Load) and f"name:{node.id}" in self.env:
+                return clone(self.env[f"name:{node.id}"])
+        return self.generic_visit(node)
+
+
 def _upstream_map_rule(repo: Repo, R: Report, r_ids) -> None:
-    """compute_upstream_map inverts every canonical edge: one unconditional
-    ``<map>[<edge>.target] ... .append(<edge>.source)`` per edge of ``<spec>["edges"]``, and the map is returned."""
+    """compute_upstream_map inverts every canonical edge: the loop that visits the edges of ``<spec>["edges"]`` (by
+    element, by index, enumerated, or as (source, target) pairs) appends, once per edge and unconditionally,
+    ``<edge>.source`` to the list kept under ``<edge>.target`` in the map that is returned."""
     cum = repo.func(GRAPH, "compute_upstream_map")
     nf = nfunc(repo, GRAPH, "compute_upstream_map", copyprop="all")
     spec = nf.args.args[0].arg if nf.args.args else None
     returned = {r.value.id for r in walk_no_nested(nf) if isinstance(r, ast.Return) and isinstance(r.value, ast.Name)}
+
+    def is_edges(e: ast.AST, depth: int = 0) -> bool:
+        m_it = pat.match("_S_.get('edges', _ANY_)", e) or pat.match("_S_.get('edges')", e) or pat.match("_S_['edges']", e)
+        if m_it is not None:
+            return dotted_name(m_it["_S_"]) == spec
+        if isinstance(e, ast.Name) and depth < 3:  # a local the normaliser did not substitute (read more than once)
+            vals = assigned_value(nf, e.id)
+            return len(vals) == 1 and is_edges(vals[0], depth + 1)
+        return False
+
+    def named(name: str) -> Optional[ast.AST]:
+        vals = assigned_value(nf, name)
+        loads = [x for x in ast.walk(nf) if isinstance(x, ast.Name) and x.id == name and isinstance(x.ctx, ast.Load)]
+        stores = [x for x in ast.walk(nf) if isinstance(x, ast.Name) and x.id == name and not isinstance(x.ctx, ast.Load)]
+        if len(vals) == 1 and len(loads) == 1 and len(stores) == 1 and isinstance(vals[0], (ast.GeneratorExp, ast.ListComp)):
+            return vals[0]
+        return None
+
+    T, S_ = f"{_EDGE}['target']", f"{_EDGE}['source']"
+    appends = [f"_M_.setdefault({T}, []).append({S_})", f"_M_.setdefault({T}, list()).append({S_})", f"_M_[{T}].append({S_})"]
+    rebuilds = [f"_M_[{T}] = _M_.get({T}, []) + [{S_}]", f"_M_[{T}] = [*_M_.get({T}, []), {S_}]", f"_M_[{T}] += [{S_}]"]
     ok = False
+    n_loops = 0
     for n in walk_no_nested(nf):
-        if not (isinstance(n, ast.For) and isinstance(n.target, ast.Name) and not n.orelse):
+        if not (isinstance(n, ast.For) and not n.orelse):
             continue
-        m_it = pat.match("_S_.get('edges', _ANY_)", n.iter) or pat.match("_S_.get('edges')", n.iter) or pat.match("_S_['edges']", n.iter)
-        if m_it is None or dotted_name(m_it["_S_"]) != spec:
+        env = _edge_traversal(n, is_edges, named)
+        if env is None:
             continue
-        e = n.target.id
-        body = [st for st in n.body if not isinstance(st, ast.Pass)]
-        hit = None
-        if len(body) == 1:
-            for p_ in (f"_M_.setdefault({e}['target'], []).append({e}['source'])", f"_M_[{e}['target']].append({e}['source'])"):
-                hit = hit or pat.match(p_, body[0].value if isinstance(body[0], ast.Expr) else body[0])
-        ok = hit is not None and dotted_name(hit["_M_"]) in returned
+        n_loops += 1
+        if any(isinstance(x, (ast.Continue, ast.Break, ast.Return, ast.Raise)) for st in n.body for x in walk_no_nested(st)):
+            continue
+        env = dict(env)
+        hits: List[str] = []
+        fine = True
+        for st in n.body:
+            if isinstance(st, ast.Pass):
+                continue
+            # a name given to a part of the edge
+            if isinstance(st, (ast.Assign, ast.AnnAssign)) and st.value is not None:
+                tgts = st.targets if isinstance(st, ast.Assign) else [st.target]
+                if len(tgts) == 1 and isinstance(tgts[0], ast.Name):
+                    env[f"name:{tgts[0].id}"] = _SubstEdge(env).visit(clone(st.value))
+                    continue
+                if len(tgts) == 1 and isinstance(tgts[0], ast.Tuple) and isinstance(st.value, ast.Tuple) and len(tgts[0].elts) == len(st.value.elts) and all(isinstance(x, ast.Name) for x in tgts[0].elts):
+                    vals = [_SubstEdge(env).visit(clone(v)) for v in st.value.elts]
+                    for x, v in zip(tgts[0].elts, vals):
+                        env[f"name:{x.id}"] = v
+                    continue
+            st2 = _SubstEdge(env).visit(clone(st))
+            hit = None
+            if isinstance(st2, ast.Expr):
+                for p_ in appends:
+                    hit = hit or pat.match(p_, st2.value)
+            else:
+                for p_ in rebuilds:
+                    hit = hit or pat.match(p_, st2)
+            if hit is not None and dotted_name(hit["_M_"]) is not None:
+                hits.append(dotted_name(hit["_M_"]))
+                continue
+            # `if <target> not in <map>: <map>[<target>] = []`: makes room, adds no edge and drops none
+            m_g = pat.match(f"if {T} not in _M_:\n    _M_[{T}] = []", st2) or pat.match(f"if {T} not in _M_:\n    _M_[{T}] = list()", st2)
+            if m_g is not None:
+                continue
+            # anything else must leave the returned map alone
+            if any(isinstance(x, ast.Name) and x.id in returned for x in ast.walk(st2)):
+                fine = False
+        ok = ok or (fine and len(hits) == 1 and hits[0] in returned)
     R.check(ok, r_ids, GRAPH, "compute_upstream_map", "for edge in edges: mapping[edge.target].append(edge.source)", "upstream map does not invert every canonical edge (source -> target) unfiltered", cum.lineno)
 
 
 def _instantiation_order_rule(repo: Repo, R: Report, r_ids) -> None:
     from ..engine import returned_values
-    inst = nfunc(repo, ORCH, "SemantivaOrchestrator._instantiate_nodes")
+    irel, iqn, _idef = _helper_of_execute(repo, "_instantiate_nodes")
+    inst = nfunc(repo, irel, iqn, copyprop="all")
     loops = [n for n in walk_no_nested(inst) if isinstance(n, ast.For)]
     returned_lists = {x.id for rv in returned_values(inst) for x in (rv.elts if isinstance(rv, ast.Tuple) else [rv]) if isinstance(x, ast.Name)}
-    spec = inst.args.args[1].arg if len(inst.args.args) > 1 else None
+    spec = _spec_param_of(inst)
 
     def over_spec(it: ast.AST) -> bool:
         if isinstance(it, ast.Call) and call_name(it) in ("enumerate", "list", "tuple", "iter") and it.args:
@@ -860,8 +1044,20 @@ def _instantiation_order_rule(repo: Repo, R: Report, r_ids) -> None:
             return len(vals) == 1 and over_spec(vals[0])
         return isinstance(it, ast.Name) and it.id == spec
 
-    ok = len(loops) == 1 and over_spec(loops[0].iter) and any(call_attr(c) == "append" and isinstance(c.func, ast.Attribute) and dotted_name(c.func.value) in returned_lists for c in calls_in(loops[0]))
-    R.check(ok, r_ids, ORCH, "SemantivaOrchestrator._instantiate_nodes", norm(loops[0]) if loops else "for node_def in pipeline_spec", "nodes are not instantiated by appending in spec order", inst.lineno)
+    def in_spec_order(loop: ast.For) -> bool:
+        if over_spec(loop.iter):
+            return True
+        # index traversal: for i in range(len(<spec>)) reading <spec>[i]
+        m = pat.match("range(len(_S_))", loop.iter) or pat.match("range(0, len(_S_))", loop.iter)
+        if m is None or not over_spec(m["_S_"]) or not isinstance(loop.target, ast.Name):
+            return False
+        i = loop.target.id
+        reads = [x for st in loop.body for x in ast.walk(st) if isinstance(x, ast.Subscript) and isinstance(x.slice, ast.Name) and x.slice.id == i and over_spec(x.value)]
+        others = [x for st in loop.body for x in ast.walk(st) if isinstance(x, ast.Subscript) and over_spec(x.value) and x not in reads]
+        return bool(reads) and not others
+
+    ok = len(loops) == 1 and in_spec_order(loops[0]) and any(call_attr(c) == "append" and isinstance(c.func, ast.Attribute) and dotted_name(c.func.value) in returned_lists for c in calls_in(loops[0]))
+    R.check(ok, r_ids, irel, iqn, norm(loops[0]) if loops else "for node_def in pipeline_spec", "nodes are not instantiated by appending in spec order", inst.lineno)
 
 
 
@@ -975,8 +1171,9 @@ def _propagation_rules(repo: Repo, R: Report, X: "_Exec") -> None:
                         if isinstance(d, FuncNode) and d.name == a.id and d is not fn:
                             total += _propagation_in(R, r, ORCH, EXECUTE + "." + d.name, d, lambda c2: call_attr(c2) not in NOT_AN_ORIGIN, "node callable")
     # construction
-    inst = nfunc(repo, ORCH, "SemantivaOrchestrator._instantiate_nodes")
-    total += _propagation_in(R, r, ORCH, "SemantivaOrchestrator._instantiate_nodes", inst, lambda c: call_attr(c) not in NOT_AN_ORIGIN, "node construction", repo=repo)
+    irel, iqn, _idef = _helper_of_execute(repo, "_instantiate_nodes")
+    inst = nfunc(repo, irel, iqn)
+    total += _propagation_in(R, r, irel, iqn, inst, lambda c: call_attr(c) not in NOT_AN_ORIGIN, "node construction", repo=repo)
     # every concrete _submit_and_wait, and every concrete executor submit (the node callable is its first parameter)
     base = repo.cls(ORCH, "SemantivaOrchestrator")
     for mod, cls in [(omod, base)] + repo.subclasses(base):
@@ -1562,6 +1759,41 @@ def _status_label(V: "_Vals", c: ast.Call) -> str:
     return "/".join(sorted({str(getattr(v, "value", "?")) for v in vals})) or "?"
 
 
+def _module_literal(repo: Repo, mod, fn: ast.AST, e: ast.AST) -> ast.AST:
+    """*e*, or the literal a module-level / class-level name stands for when it is bound exactly once there (also as
+    one component of ``A, B = "a", "b"``) and not rebound in the function."""
+    name = None
+    bodies: List[List[ast.stmt]] = []
+    if isinstance(e, ast.Name) and e.id not in _local_names(fn):
+        name, bodies = e.id, [mod.tree.body]
+    elif isinstance(e, ast.Attribute) and isinstance(e.value, ast.Name):
+        from ..engine import enclosing_class
+        cls = enclosing_class(fn)
+        if cls is not None and e.value.id in ("self", "cls", cls.name):
+            name, bodies = e.attr, [c.body for _m, c in repo.mro(mod, cls)]
+    if name is None:
+        return e
+    for body in bodies:
+        found: List[ast.AST] = []
+        for st in body:
+            if isinstance(st, ast.AnnAssign) and isinstance(st.target, ast.Name) and st.target.id == name and st.value is not None:
+                found.append(st.value)
+            elif isinstance(st, ast.Assign):
+                for t in st.targets:
+                    if isinstance(t, ast.Name) and t.id == name:
+                        found.append(st.value)
+                    elif isinstance(t, (ast.Tuple, ast.List)):
+                        for i, el in enumerate(t.elts):
+                            if isinstance(el, ast.Name) and el.id == name:
+                                same = isinstance(st.value, (ast.Tuple, ast.List)) and len(st.value.elts) == len(t.elts) and not any(isinstance(x, ast.Starred) for x in list(t.elts) + list(st.value.elts))
+                                found.append(st.value.elts[i] if same else st.value)
+            elif any(isinstance(x, ast.Name) and x.id == name and isinstance(x.ctx, (ast.Store, ast.Del)) for x in ast.walk(st) if not isinstance(st, FuncNode + (ast.ClassDef,))):
+                found.append(st)
+        if found:
+            return found[0] if len(found) == 1 and isinstance(found[0], ast.Constant) else e
+    return e
+
+
 def _load_schema(repo: Repo, name: str) -> dict:
     path = repo.root / SCHEMA_DIR / name
     try:
@@ -1588,17 +1820,52 @@ def _record_literal(repo: Repo, qn: str) -> Tuple[Optional[str], Optional[ast.Di
     """(local name, dict literal, normal form) of the record an emitter writes: the mapping that is the first
     argument of the json.dumps whose text goes to the file - found by that role, not by the local's name."""
     nf = nfunc(repo, JSONL, qn)
+
+    def display(v: ast.AST) -> Optional[ast.Dict]:
+        """A dict display, or ``dict(key=value, ..)`` read as one."""
+        if isinstance(v, ast.Dict):
+            return v
+        if isinstance(v, ast.Call) and call_name(v) == "dict" and not v.args and v.keywords and all(k.arg is not None for k in v.keywords):
+            lit = ast.Dict(keys=[ast.copy_location(ast.Constant(value=k.arg), k.value) for k in v.keywords], values=[k.value for k in v.keywords])
+            return ast.copy_location(lit, v)
+        return None
+
     for w in _driver_writes(repo):
         if w.qn != qn:
             continue
         for d in w.dumps:
             arg = d.args[0] if d.args else kwarg(d, "obj")
-            if isinstance(arg, ast.Dict):
-                return None, arg, w.nf
+            if display(arg) is not None:
+                return None, display(arg), w.nf
             if isinstance(arg, ast.Name):
                 for v in assigned_value(w.nf, arg.id):
-                    if isinstance(v, ast.Dict):
-                        return arg.id, v, w.nf
+                    if display(v) is not None:
+                        return arg.id, display(v), w.nf
+    # the emitter hands its record to a helper of the driver that was not inlined (a public `emit(record)`): the
+    # record is the argument bound to the parameter that helper serialises and writes
+    jmod = repo.module(JSONL)
+    for c in calls_in(nf):
+        try:
+            targets = [t for t in repo.resolve_call(jmod, c) if isinstance(t[1], FuncNode) and t[0] is jmod]
+        except Exception:
+            targets = []
+        for _m, callee in targets[:1]:
+            binding = _bind_params(callee, c)
+            if binding is None:
+                continue
+            for w in _driver_writes(repo):
+                if w.qn != qualname_of(callee):
+                    continue
+                for d in w.dumps:
+                    arg = d.args[0] if d.args else kwarg(d, "obj")
+                    if isinstance(arg, ast.Name) and arg.id in binding and not assigned_value(w.nf, arg.id):
+                        given = binding[arg.id]
+                        if display(given) is not None:
+                            return None, display(given), nf
+                        if isinstance(given, ast.Name):
+                            for v in assigned_value(nf, given.id):
+                                if display(v) is not None:
+                                    return given.id, display(v), nf
     return None, None, nf
 
 
@@ -1668,19 +1935,19 @@ def _schema_rules(repo: Repo, R: Report, X: Optional["_Exec"] = None) -> None:
     optional = {k for k, st in fields.items() if st.value is not None}
     for k in sorted(req):
         R.check(k in fields and k not in optional, r, MODEL, "SERRecord", f"ser: required key {k!r} is a mandatory dataclass field", f"schema-required SER key {k!r} is not a mandatory field of SERRecord", ser_cls.lineno)
-    mk = repo.func(ORCH, "SemantivaOrchestrator._make_ser_record")
+    mk_rel, mk_qn, mk = _helper_of_execute(repo, "_make_ser_record")
     ctor = next((c for c in ast.walk(mk) if isinstance(c, ast.Call) and call_attr(c) == "SERRecord"), None)
     if ctor is None:
         raise AnalysisError("_make_ser_record: SERRecord(...) not found")
     for k, spec in props.items():
         v = kwarg(ctor, k)
         if "const" in spec:
-            R.check(isinstance(v, ast.Constant) and v.value == spec["const"], r, ORCH, "SemantivaOrchestrator._make_ser_record", f"ser: {k} == {spec['const']!r}", "SER constant differs from schema const", ctor.lineno)
+            R.check(isinstance(v, ast.Constant) and v.value == spec["const"], r, mk_rel, mk_qn, f"ser: {k} == {spec['const']!r}", "SER constant differs from schema const", ctor.lineno)
         if spec.get("type") == "object" and spec.get("required"):
             if isinstance(v, ast.Dict):
                 lit_keys = {kk.value for kk in v.keys if isinstance(kk, ast.Constant)}
                 for rk in spec["required"]:
-                    R.check(rk in lit_keys, r, ORCH, "SemantivaOrchestrator._make_ser_record", f"ser.{k}: required key {rk!r}", f"SER {k} object lacks schema-required key {rk!r}", ctor.lineno)
+                    R.check(rk in lit_keys, r, mk_rel, mk_qn, f"ser.{k}: required key {rk!r}", f"SER {k} object lacks schema-required key {rk!r}", ctor.lineno)
             elif k == "context_delta":
                 cd = repo.cls(MODEL, "ContextDelta")
                 cfields = {st.target.id for st in cd.body if isinstance(st, ast.AnnAssign) and isinstance(st.target, ast.Name) and st.value is None}
@@ -1706,15 +1973,16 @@ def _schema_rules(repo: Repo, R: Report, X: Optional["_Exec"] = None) -> None:
             R.check(bool(vals) and all(isinstance(v, ast.Constant) and v.value in enum for v in vals), r, ORCH, EXECUTE, f"ser.status literal {_status_label(V, c)!r}", "SER status literal outside the schema enum", c.lineno)
     # parameter_sources enum
     ps_enum = set(props.get("processor", {}).get("properties", {}).get("parameter_sources", {}).get("additionalProperties", {}).get("enum", []))
-    repo.func(ORCH, "SemantivaOrchestrator._resolve_params_with_sources")
-    rp = nfunc(repo, ORCH, "SemantivaOrchestrator._resolve_params_with_sources", copyprop="all")
+    rp_rel, rp_qn, _rp_def = _helper_of_execute(repo, "_resolve_params_with_sources")
+    rp = nfunc(repo, rp_rel, rp_qn, copyprop="all")
     # the provenance table by role: the second component of what the resolver returns
     src_names = {r.value.elts[1].id for r in walk_no_nested(rp) if isinstance(r, ast.Return) and isinstance(r.value, ast.Tuple) and len(r.value.elts) == 2 and isinstance(r.value.elts[1], ast.Name)}
     if not src_names:
         raise AnalysisError("_resolve_params_with_sources: does not return (params, sources) locals")
     for n in walk_no_nested(rp):
         if isinstance(n, ast.Assign) and any(isinstance(t, ast.Subscript) and dotted_name(t.value) in src_names for t in n.targets):
-            R.check(isinstance(n.value, ast.Constant) and n.value.value in ps_enum, r, ORCH, "SemantivaOrchestrator._resolve_params_with_sources", norm(n), "parameter source label outside the schema enum {context,node,default}", n.lineno)
+            label = _module_literal(repo, repo.module(rp_rel), rp, n.value)
+            R.check(isinstance(label, ast.Constant) and label.value in ps_enum, r, rp_rel, rp_qn, norm(n), "parameter source label outside the schema enum {context,node,default}", n.lineno)
     # on_node_event: required SER keys are not filtered away (only None-valued top-level keys are dropped)
     one = repo.func(JSONL, "JsonlTraceDriver.on_node_event")
     for n in walk_no_nested(one):
@@ -1729,54 +1997,555 @@ def _schema_rules(repo: Repo, R: Report, X: Optional["_Exec"] = None) -> None:
 SANITISERS = {"float", "int", "str", "bool", "len", "repr", "_json_safe_sample", "serialize_json_safe", "safe_repr", "sha256_bytes", "_sha256_json", "hexdigest"}
 
 
-def _leaf_safe(fn: ast.AST, e: ast.AST, depth: int = 0) -> bool:
-    """Is the value of *e* JSON-safe by construction (sanitiser table, literals, containers of those)?"""
-    if isinstance(e, ast.Constant) or isinstance(e, ast.JoinedStr):
-        return True
-    if isinstance(e, ast.Attribute) and e.attr in ("__name__", "__qualname__", "__module__"):
-        return True
-    if isinstance(e, ast.Call):
-        a = call_attr(e)
-        if a in SANITISERS:
-            return True
-        if a == "getattr" and len(e.args) == 3:
+class _Scope:
+    """One activation of a function for the JSON-safety argument: the function (a def, a lambda, or None for the
+    module level), the argument expressions its parameters stand for (each with the scope it is written in) and, for
+    a closure, the scope it was defined in."""
+
+    def __init__(self, repo: Repo, mod, fn: Optional[ast.AST], bound: Optional[Dict[str, Tuple[ast.AST, "_Scope"]]] = None, parent: Optional["_Scope"] = None):
+        self.repo, self.mod, self.fn, self.bound, self.parent = repo, mod, fn, dict(bound or {}), parent
+        self.params = _param_names(fn) if fn is not None else set()
+        self._table: Optional[Dict[str, List[Tuple[str, object]]]] = None
+
+    # -- what the names of this scope are bound to (flow-insensitive: every binding counts) --------------------
+    def table(self) -> Dict[str, List[Tuple[str, object]]]:
+        """name -> [("value", expr) | ("elem", (expr, path)) | ("def", FunctionDef) | ("grow1", element expr) |
+        ("growN", container expr) | ("store", (key expr, value expr)) | ("opaque", node)]"""
+        if self._table is not None:
+            return self._table
+        t: Dict[str, List[Tuple[str, object]]] = {}
+
+        def add(name: str, kind: str, what: object) -> None:
+            t.setdefault(name, []).append((kind, what))
+
+        def bind_target(tgt: ast.AST, value: Optional[ast.AST], path: Tuple[int, ...] = ()) -> None:
+            if isinstance(tgt, ast.Name):
+                if value is None:
+                    add(tgt.id, "opaque", tgt)
+                elif path:
+                    add(tgt.id, "elem", (value, path))
+                else:
+                    add(tgt.id, "value", value)
+            elif isinstance(tgt, (ast.Tuple, ast.List)):
+                same_shape = value is not None and not path and isinstance(value, (ast.Tuple, ast.List)) and len(value.elts) == len(tgt.elts) \
+                    and not any(isinstance(x, ast.Starred) for x in list(value.elts) + list(tgt.elts))
+                for i, el in enumerate(tgt.elts):
+                    if isinstance(el, ast.Starred):
+                        bind_target(el.value, None)
+                    elif same_shape:
+                        bind_target(el, value.elts[i])
+                    else:
+                        bind_target(el, value, path + (i,))
+            elif isinstance(tgt, ast.Subscript) and isinstance(tgt.value, ast.Name):
+                if value is not None and not path:
+                    add(tgt.value.id, "store", (tgt.slice, value))
+                else:
+                    add(tgt.value.id, "opaque", tgt)
+
+        def rec(n: ast.AST, top: bool, nested: bool) -> None:
+            if isinstance(n, FuncNode + (ast.ClassDef,)) and not top:
+                if not nested:
+                    add(n.name, "def" if isinstance(n, FuncNode) else "opaque", n)
+                nested = True  # mutations of this scope's containers inside a nested def are not followed
+            if isinstance(n, ast.Lambda):
+                nested = True
+            if not nested:
+                if isinstance(n, ast.Assign):
+                    for tg in n.targets:
+                        bind_target(tg, n.value)
+                elif isinstance(n, ast.AnnAssign) and n.value is not None:
+                    bind_target(n.target, n.value)
+                elif isinstance(n, ast.AugAssign):
+                    if isinstance(n.target, ast.Name):
+                        add(n.target.id, "growN" if isinstance(n.op, ast.Add) else "opaque", n.value if isinstance(n.op, ast.Add) else n)
+                    elif isinstance(n.target, ast.Subscript) and isinstance(n.target.value, ast.Name):
+                        add(n.target.value.id, "opaque", n)
+                elif isinstance(n, (ast.For, ast.AsyncFor)):
+                    for x in ast.walk(n.target):
+                        if isinstance(x, ast.Name):
+                            add(x.id, "iter", n.iter)
+                elif isinstance(n, (ast.With, ast.AsyncWith)):
+                    for it in n.items:
+                        if it.optional_vars is not None:
+                            bind_target(it.optional_vars, None)
+                elif isinstance(n, ast.ExceptHandler) and n.name:
+                    add(n.name, "opaque", n)
+                elif isinstance(n, ast.NamedExpr):
+                    add(n.target.id, "value", n.value)
+                elif isinstance(n, (ast.Import, ast.ImportFrom)) and self.fn is not None:
+                    for al in n.names:
+                        add((al.asname or al.name).split(".")[0], "opaque", n)
+                elif isinstance(n, (ast.MatchAs, ast.MatchStar)) and n.name:
+                    add(n.name, "opaque", n)
+                elif isinstance(n, ast.MatchMapping) and n.rest:
+                    add(n.rest, "opaque", n)
+            if isinstance(n, ast.Call) and isinstance(n.func, ast.Attribute) and isinstance(n.func.value, ast.Name):
+                nm, a = n.func.value.id, n.func.attr
+                args = list(n.args)
+                if nested:
+                    if a in ("append", "extend", "insert", "update", "setdefault", "add", "__setitem__", "appendleft"):
+                        add(nm, "opaque", n)
+                elif a in ("append", "appendleft") and len(args) == 1:
+                    add(nm, "grow1", args[0])
+                elif a == "insert" and len(args) == 2:
+                    add(nm, "grow1", args[1])
+                elif a == "extend" and len(args) == 1:
+                    add(nm, "growN", args[0])
+                elif a == "update":
+                    for x in args:
+                        add(nm, "growN", x)
+                    for k in n.keywords:
+                        add(nm, "grow1" if k.arg is not None else "growN", k.value)
+                elif a in ("setdefault", "__setitem__") and len(args) == 2:
+                    add(nm, "store", (args[0], args[1]))
+            for c in ast.iter_child_nodes(n):
+                rec(c, False, nested)
+
+        if self.fn is None:
+            for st in self.mod.tree.body:
+                rec(st, False, False)
+        elif isinstance(self.fn, ast.Lambda):
+            pass
+        else:
+            rec(self.fn, True, False)
+        # comprehension targets are not bindings of the function scope
+        self._table = t
+        return t
+
+    def lookup(self, name: str) -> Tuple[Optional["_Scope"], List[Tuple[str, object]]]:
+        """(scope the name lives in, its bindings); a parameter with a known argument is ("arg", (expr, scope))."""
+        sc: Optional[_Scope] = self
+        while sc is not None:
+            entries = sc.table().get(name)
+            if name in sc.params:
+                if name in sc.bound:
+                    return sc, [("arg", sc.bound[name])] + [e for e in (entries or [])]
+                return sc, [("param", name)] + [e for e in (entries or [])]
+            if entries:
+                return sc, entries
+            if sc.parent is None and sc.fn is not None:
+                sc = _Scope(sc.repo, sc.mod, None)  # module level
+            else:
+                sc = sc.parent
+        return None, []
+
+    def child(self, fn: ast.AST, call: Optional[ast.Call], parent: Optional["_Scope"], mod=None) -> "_Scope":
+        bound: Dict[str, Tuple[ast.AST, _Scope]] = {}
+        if call is not None and not isinstance(fn, ast.Lambda):
+            b = _bind_params(fn, call)
+            if b is not None:
+                bound = {k: (v, self) for k, v in b.items()}
+        elif call is not None:
+            pos = [x.arg for x in fn.args.posonlyargs + fn.args.args]
+            if not any(isinstance(x, ast.Starred) for x in call.args) and len(call.args) <= len(pos):
+                bound = {k: (v, self) for k, v in zip(pos, call.args)}
+                bound.update({k.arg: (k.value, self) for k in call.keywords if k.arg is not None})
+        return _Scope(self.repo, mod or self.mod, fn, bound, parent)
+
+
+def _in_comprehension_hidden(hidden: frozenset, e: ast.AST) -> frozenset:
+    return hidden | frozenset(_comp_targets(e))
+
+
+class _JsonSafe:
+    """Is a value JSON-encodable by construction?  Literals, results of the sanitiser table, containers of those,
+    and whatever locals / parameters / helper calls (closures, lambdas, module functions, entries of a dispatch
+    table) stand for - followed through every binding of a name (flow-insensitive: all of them must be safe)."""
+
+    def __init__(self, repo: Repo):
+        self.repo = repo
+        self.active: Set[Tuple[int, int]] = set()
+        self.why: Optional[ast.AST] = None
+
+    # -- callables ---------------------------------------------------------------------------------------
+    def callables(self, f: ast.AST, sc: _Scope, depth: int = 0) -> Optional[List[Tuple[ast.AST, Optional[_Scope], object]]]:
+        """What the expression *f* in call position may denote: [(def or lambda, defining scope or None for a module
+        function, module)] - None when it cannot be told."""
+        if depth > 6:
+            return None
+        if isinstance(f, ast.Lambda):
+            return [(f, sc, sc.mod)]
+        if isinstance(f, ast.IfExp):
+            a, b = self.callables(f.body, sc, depth + 1), self.callables(f.orelse, sc, depth + 1)
+            return None if a is None or b is None else a + b
+        if isinstance(f, ast.BoolOp) and isinstance(f.op, ast.Or):
+            out = []
+            for v in f.values:
+                if isinstance(v, ast.Constant) and v.value is None:
+                    continue
+                sub = self.callables(v, sc, depth + 1)
+                if sub is None:
+                    return None
+                out += sub
+            return out
+        if isinstance(f, ast.Constant) and f.value is None:
+            return []  # calling None raises: no value is returned
+        # an entry of a dispatch table: T[k] / T.get(k) / T.get(k, default)
+        table = default = None
+        if isinstance(f, ast.Subscript):
+            table = f.value
+        elif isinstance(f, ast.Call) and isinstance(f.func, ast.Attribute) and f.func.attr == "get" and 1 <= len(f.args) <= 2 and not f.keywords:
+            table = f.func.value
+            default = f.args[1] if len(f.args) == 2 else None
+        if table is not None:
+            entries = self.mapping_values(table, sc, depth + 1)
+            if entries is None:
+                return None
+            out = []
+            for v, vsc in entries + ([(default, sc)] if default is not None else []):
+                sub = self.callables(v, vsc, depth + 1)
+                if sub is None:
+                    return None
+                out += sub
+            return out
+        if isinstance(f, ast.Name):
+            owner, entries = sc.lookup(f.id)
+            if owner is not None:
+                out = []
+                for kind, what in entries:
+                    if kind == "def":
+                        out.append((what, owner, owner.mod))
+                    elif kind == "value":
+                        sub = self.callables(what, owner, depth + 1)
+                        if sub is None:
+                            return None
+                        out += sub
+                    elif kind == "arg":
+                        sub = self.callables(what[0], what[1], depth + 1)
+                        if sub is None:
+                            return None
+                        out += sub
+                    else:
+                        return None
+                return out
+        if isinstance(f, (ast.Name, ast.Attribute)):
+            probe = ast.Call(func=f, args=[], keywords=[])
+            try:
+                targets = self.repo.resolve_call(sc.mod, probe) if not isinstance(f, ast.Name) else ([r] if (r := self.repo.resolve_name(sc.mod, f, sc.fn if sc.fn is not None and not isinstance(sc.fn, ast.Lambda) else None)) else [])
+            except Exception:
+                targets = []
+            targets = [t for t in targets if isinstance(t[1], FuncNode)]
+            if targets:
+                return [(fn_, None, m_) for m_, fn_ in targets]
+        return None
+
+    def mapping_values(self, e: ast.AST, sc: _Scope, depth: int = 0) -> Optional[List[Tuple[ast.AST, _Scope]]]:
+        """The values of a mapping built from a display / dict(k=v) (through names); None when unknown."""
+        if depth > 6:
+            return None
+        if isinstance(e, ast.Dict):
+            out = []
+            for k, v in zip(e.keys, e.values):
+                if k is None:
+                    sub = self.mapping_values(v, sc, depth + 1)
+                    if sub is None:
+                        return None
+                    out += sub
+                else:
+                    out.append((v, sc))
+            return out
+        if isinstance(e, ast.Call) and call_name(e) == "dict" and not e.args and all(k.arg is not None for k in e.keywords):
+            return [(k.value, sc) for k in e.keywords]
+        if isinstance(e, ast.Name):
+            owner, entries = sc.lookup(e.id)
+            if owner is None:
+                return None
+            out = []
+            for kind, what in entries:
+                if kind == "value":
+                    sub = self.mapping_values(what, owner, depth + 1)
+                elif kind == "arg":
+                    sub = self.mapping_values(what[0], what[1], depth + 1)
+                elif kind == "store":
+                    sub = [(what[1], owner)]
+                elif kind == "growN":
+                    sub = self.mapping_values(what, owner, depth + 1)
+                else:
+                    sub = None
+                if sub is None:
+                    return None
+                out += sub
+            return out
+        return None
+
+    def call_scopes(self, call: ast.Call, sc: _Scope) -> Optional[List[_Scope]]:
+        """Activations *call* may start (repo functions, closures, lambdas); None when the callee is not known."""
+        cs = self.callables(call.func, sc)
+        if cs is None:
+            return None
+        out = []
+        for fn_, defsc, m_ in cs:
+            if defsc is None and isinstance(fn_, FuncNode):
+                # a module-level function / method: analysed on its normal form
+                try:
+                    nf = nfunc(self.repo, m_.rel, qualname_of(fn_), keep=tuple(sorted(SANITISERS)))
+                except Exception:
+                    nf = fn_
+                out.append(sc.child(nf, call, None, m_))
+            else:
+                out.append(sc.child(fn_, call, defsc, m_))
+        return out
+
+    def returns(self, sc: _Scope) -> List[ast.AST]:
+        if isinstance(sc.fn, ast.Lambda):
+            return [sc.fn.body]
+        return [r.value if r.value is not None else ast.Constant(value=None) for r in walk_no_nested(sc.fn) if isinstance(r, ast.Return)]
+
+    # -- values ------------------------------------------------------------------------------------------
+    def safe(self, e: Optional[ast.AST], sc: _Scope, hidden: frozenset = frozenset(), depth: int = 0) -> bool:
+        ok = self._safe(e, sc, hidden, depth)
+        if not ok and self.why is None:
+            self.why = e
+        return ok
+
+    def _safe(self, e: Optional[ast.AST], sc: _Scope, hidden: frozenset, depth: int) -> bool:
+        if e is None or depth > 24:
             return False
-        if a in ("list", "sorted", "tuple") and e.args:
-            return _leaf_safe(fn, e.args[0], depth)
+        if isinstance(e, (ast.Constant, ast.JoinedStr, ast.Compare)):
+            return not (isinstance(e, ast.Constant) and isinstance(e.value, (bytes, complex, type(Ellipsis))))
+        if isinstance(e, ast.Attribute):
+            return e.attr in ("__name__", "__qualname__", "__module__")
+        if isinstance(e, ast.UnaryOp) and isinstance(e.op, ast.Not):
+            return True
+        if isinstance(e, (ast.Starred, ast.NamedExpr)):
+            return self.safe(e.value, sc, hidden, depth + 1)
+        if isinstance(e, ast.IfExp):
+            return self.safe(e.body, sc, hidden, depth + 1) and self.safe(e.orelse, sc, hidden, depth + 1)
+        if isinstance(e, ast.BoolOp):
+            return all(self.safe(v, sc, hidden, depth + 1) for v in e.values)
+        if isinstance(e, ast.BinOp) and isinstance(e.op, (ast.Add, ast.BitOr)):
+            return self.safe(e.left, sc, hidden, depth + 1) and self.safe(e.right, sc, hidden, depth + 1)
+        if isinstance(e, ast.Dict):
+            return all((self.safe(v, sc, hidden, depth + 1) if k is None else (self._text_key(k, sc, hidden, depth) and self.safe(v, sc, hidden, depth + 1))) for k, v in zip(e.keys, e.values))
+        if isinstance(e, (ast.List, ast.Tuple)):
+            return all(self.safe(v, sc, hidden, depth + 1) for v in e.elts)
+        if isinstance(e, (ast.ListComp, ast.GeneratorExp)):
+            return self.safe(e.elt, sc, _in_comprehension_hidden(hidden, e), depth + 1)
+        if isinstance(e, ast.DictComp):
+            h = _in_comprehension_hidden(hidden, e)
+            return self._text_key(e.key, sc, h, depth) and self.safe(e.value, sc, h, depth + 1)
+        if isinstance(e, ast.Subscript):
+            # an item / a slice of a JSON-safe container is JSON-safe
+            return self.safe(e.value, sc, hidden, depth + 1)
+        if isinstance(e, ast.Call):
+            a = call_attr(e)
+            if a in SANITISERS:
+                return True
+            if a == "getattr" and len(e.args) == 3:
+                return False
+            if a in ("list", "sorted", "tuple", "reversed") and len(e.args) >= 1 and isinstance(e.func, ast.Name):
+                return self.safe(e.args[0], sc, hidden, depth + 1)
+            if a == "dict" and isinstance(e.func, ast.Name):
+                return all(self.safe(x, sc, hidden, depth + 1) for x in e.args) and all(self.safe(k.value, sc, hidden, depth + 1) for k in e.keywords)
+            if a == "copy" and isinstance(e.func, ast.Attribute) and not e.args:
+                return self.safe(e.func.value, sc, hidden, depth + 1)
+            if a == "get" and isinstance(e.func, ast.Attribute) and 1 <= len(e.args) <= 2:
+                return self.safe(e.func.value, sc, hidden, depth + 1) and all(self.safe(x, sc, hidden, depth + 1) for x in e.args[1:])
+            if any(n_.id in hidden for n_ in ast.walk(e.func) if isinstance(n_, ast.Name)):
+                return False
+            scopes = self.call_scopes(e, sc)
+            if not scopes:
+                return False
+            for csc in scopes:
+                key = (id(csc.fn), id(sc.fn))
+                if key in self.active:
+                    continue
+                self.active.add(key)
+                try:
+                    rets = self.returns(csc)
+                    if not rets or not all(self.safe(rv, csc, frozenset(), depth + 1) for rv in rets):
+                        return False
+                finally:
+                    self.active.discard(key)
+            return True
+        if isinstance(e, ast.Name):
+            if e.id in hidden:
+                return False
+            return self.name_safe(e.id, sc, (), depth)
         return False
-    if isinstance(e, ast.Dict):
-        return all(k is not None and isinstance(k, ast.Constant) and _leaf_safe(fn, v, depth) for k, v in zip(e.keys, e.values))
-    if isinstance(e, (ast.List, ast.Tuple)):
-        return all(_leaf_safe(fn, v, depth) for v in e.elts)
-    if isinstance(e, ast.ListComp):
-        return _leaf_safe(fn, e.elt, depth)
-    if isinstance(e, ast.IfExp):
-        return _leaf_safe(fn, e.body, depth) and _leaf_safe(fn, e.orelse, depth)
-    if isinstance(e, ast.Name) and depth < 3:
-        vals = assigned_value(fn, e.id)
-        return bool(vals) and all(_leaf_safe(fn, v, depth + 1) for v in vals)
-    return False
+
+    def _text_key(self, k: ast.AST, sc: _Scope, hidden: frozenset, depth: int) -> bool:
+        if isinstance(k, ast.Constant):
+            return isinstance(k.value, (str, int, float, bool)) or k.value is None
+        if isinstance(k, ast.JoinedStr):
+            return True
+        if isinstance(k, ast.Call) and call_attr(k) in ("str", "repr", "safe_repr") and isinstance(k.func, ast.Name):
+            return True
+        if isinstance(k, ast.Attribute):
+            return k.attr in ("__name__", "__qualname__", "__module__")
+        if isinstance(k, ast.Name) and k.id not in hidden:
+            owner, entries = sc.lookup(k.id)
+            return owner is not None and bool(entries) and all(kind == "value" and self._text_key(what, owner, frozenset(), depth + 1) for kind, what in entries) and depth < 12
+        return False
+
+    def name_safe(self, name: str, sc: _Scope, path: Tuple[int, ...], depth: int) -> bool:
+        owner, entries = sc.lookup(name)
+        if owner is None or not entries:
+            return False
+        key = (id(owner.fn), hash(("name", name, path)))
+        if key in self.active:
+            return True  # a value built from itself (`acc = acc + [x]`): decided by its other ingredients
+        self.active.add(key)
+        try:
+            for kind, what in entries:
+                if kind == "value":
+                    ok = self.elem_safe(what, owner, path, depth + 1)
+                elif kind == "elem":
+                    ok = self.elem_safe(what[0], owner, tuple(what[1]) + path, depth + 1)
+                elif kind == "arg":
+                    ok = self.elem_safe(what[0], what[1], path, depth + 1)
+                elif kind == "grow1":
+                    ok = self.safe(what, owner, frozenset(), depth + 1)
+                elif kind == "growN":
+                    ok = self.safe(what, owner, frozenset(), depth + 1)
+                elif kind == "store":
+                    ok = self._text_key(what[0], owner, frozenset(), depth) and self.safe(what[1], owner, frozenset(), depth + 1)
+                elif kind == "iter":  # the items of a JSON-safe container are JSON-safe
+                    ok = not path and self.safe(what, owner, frozenset(), depth + 1)
+                else:  # param without a known argument, with / except target, nested def ...
+                    ok = False
+                if not ok:
+                    return False
+            return True
+        finally:
+            self.active.discard(key)
+
+    def elem_safe(self, e: ast.AST, sc: _Scope, path: Tuple[int, ...], depth: int) -> bool:
+        """Is ``e[path[0]][path[1]]..`` JSON-safe (an unpacked element of a tuple-valued expression)?"""
+        if not path:
+            return self.safe(e, sc, frozenset(), depth)
+        if isinstance(e, (ast.Tuple, ast.List)) and not any(isinstance(x, ast.Starred) for x in e.elts) and path[0] < len(e.elts):
+            return self.elem_safe(e.elts[path[0]], sc, path[1:], depth + 1)
+        if isinstance(e, ast.IfExp):
+            return self.elem_safe(e.body, sc, path, depth + 1) and self.elem_safe(e.orelse, sc, path, depth + 1)
+        if isinstance(e, ast.Name):
+            return self.name_safe(e.id, sc, path, depth + 1)
+        if isinstance(e, ast.Call) and call_attr(e) not in SANITISERS:
+            scopes = self.call_scopes(e, sc)
+            if scopes:
+                ok = True
+                for csc in scopes:
+                    rets = self.returns(csc)
+                    ok = ok and bool(rets) and all(self.elem_safe(rv, csc, path, depth + 1) for rv in rets)
+                return ok
+        # an element of a value that is safe as a whole is safe
+        return self.safe(e, sc, frozenset(), depth)
+
+    # -- the mappings a function returns -------------------------------------------------------------------
+    def returned_mappings(self, sc: _Scope, depth: int = 0, _seen: Optional[Set[int]] = None) -> List[Tuple[str, ast.AST, _Scope, List[Tuple[ast.AST, ast.AST]]]]:
+        """[("dict", display, scope, later stores) | ("other", expr, scope, [])]: every value the activation may
+        return, followed through locals, conditional expressions and calls whose callee is known."""
+        _seen = _seen if _seen is not None else set()
+        out: List[Tuple[str, ast.AST, _Scope, List[Tuple[ast.AST, ast.AST]]]] = []
+
+        def expand(e: ast.AST, s: _Scope, d: int) -> None:
+            if d > 12:
+                out.append(("other", e, s, []))
+                return
+            if isinstance(e, ast.Dict) and not any(k is None for k in e.keys):
+                out.append(("dict", e, s, []))
+            elif isinstance(e, ast.Call) and call_name(e) == "dict" and not e.args and e.keywords and all(k.arg is not None for k in e.keywords):
+                lit = ast.Dict(keys=[ast.Constant(value=k.arg) for k in e.keywords], values=[k.value for k in e.keywords])
+                ast.copy_location(lit, e)
+                out.append(("dict", lit, s, []))
+            elif isinstance(e, ast.IfExp):
+                expand(e.body, s, d + 1)
+                expand(e.orelse, s, d + 1)
+            elif isinstance(e, ast.Name):
+                owner, entries = s.lookup(e.id)
+                if owner is None or not entries or any(kind not in ("value", "arg", "store") for kind, _w in entries):
+                    out.append(("other", e, s, []))
+                    return
+                stores = [what for kind, what in entries if kind == "store"]
+                before = len(out)
+                for kind, what in entries:
+                    if kind == "value":
+                        expand(what, owner, d + 1)
+                    elif kind == "arg":
+                        expand(what[0], what[1], d + 1)
+                if stores:
+                    for i in range(before, len(out)):
+                        k_, e_, s_, st_ = out[i]
+                        out[i] = (k_, e_, s_, st_ + [(a, b, owner) for a, b in stores]) if k_ == "dict" and s_ is owner else ("other", e, s, [])
+            elif isinstance(e, ast.Call) and call_attr(e) not in SANITISERS:
+                scopes = self.call_scopes(e, s)
+                if not scopes:
+                    out.append(("other", e, s, []))
+                    return
+                for csc in scopes:
+                    if id(csc.fn) in _seen:
+                        continue
+                    _seen.add(id(csc.fn))
+                    out.extend(self.returned_mappings(csc, depth + 1, _seen))
+            else:
+                out.append(("other", e, s, []))
+
+        for rv in self.returns(sc):
+            expand(rv, sc, depth)
+        return out
 
 
 def _json_safety_rules(repo: Repo, R: Report, fallback_pops) -> None:
     r = R.rule("C06-D2b-json-safe-before-emit", "values that reach pipeline_start are JSON-safe by construction, so the driver's TypeError fallback (which drops the required pipeline_spec_canonical) is unreachable: canonical nodes are json-dumped when built, and every leaf of a sweep variable's domain signature passes a sanitiser", 6)
     SEM = "semantiva/metadata/semantic_id.py"
-    vds = repo.func(SEM, "variable_domain_signature")
+    repo.func(SEM, "variable_domain_signature")
+    smod = repo.module(SEM)
+    vds = nfunc(repo, SEM, "variable_domain_signature", keep=tuple(sorted(SANITISERS)))
+    J = _JsonSafe(repo)
+    root = _Scope(repo, smod, vds)
+    entry_param = vds.args.args[0].arg if vds.args.args else None
     n_leaves = 0
-    from ..engine import returned_values
-    for ret_value in [v for v in returned_values(vds) if isinstance(v, ast.Dict)]:
-        for k, v in zip(ret_value.keys, ret_value.values):
+
+    def is_entry_argument(v: ast.AST, sc: _Scope, depth: int = 0) -> bool:
+        """The value is the object variable_domain_signature was called with (through parameters of helpers)."""
+        if not isinstance(v, ast.Name) or depth > 6:
+            return False
+        owner, entries = sc.lookup(v.id)
+        if owner is None or len(entries) != 1:
+            return False
+        kind, what = entries[0]
+        if kind == "param":
+            return owner.fn is vds and what == entry_param
+        if kind == "arg":
+            return is_entry_argument(what[0], what[1], depth + 1)
+        if kind == "value":
+            return is_entry_argument(what, owner, depth + 1)
+        return False
+
+    def context_key_of_entry(v: ast.AST, sc: _Scope, depth: int = 0) -> bool:
+        """getattr(<the spec>, "key", <default>): the context key of a from_context variable, a mapping key of the YAML (text)."""
+        if isinstance(v, ast.Name) and depth < 6:
+            owner, entries = sc.lookup(v.id)
+            return owner is not None and len(entries) == 1 and entries[0][0] in ("value", "arg") and (
+                context_key_of_entry(entries[0][1], owner, depth + 1) if entries[0][0] == "value" else context_key_of_entry(entries[0][1][0], entries[0][1][1], depth + 1))
+        return isinstance(v, ast.Call) and call_name(v) == "getattr" and len(v.args) in (2, 3) and isinstance(v.args[1], ast.Constant) and v.args[1].value == "key" and is_entry_argument(v.args[0], sc)
+
+    for kind, e, sc, stores in J.returned_mappings(root):
+        where = getattr(sc.fn, "name", "<lambda>") if sc.fn is not vds else "variable_domain_signature"
+        qn = "variable_domain_signature" if sc.fn is vds else f"variable_domain_signature -> {where}"
+        if kind != "dict":
+            if isinstance(e, ast.Call) and J.call_scopes(e, sc) is None:
+                raise AnalysisError(f"variable_domain_signature: what `{norm(e)[:70]}` returns cannot be followed (callee unknown)")
+            n_leaves += 1
+            J.why = None
+            R.check(J.safe(e, sc), r, SEM, qn, f"returned: {norm(e)[:70]}",
+                    "the domain signature is not a mapping built from sanitised leaves: a raw configuration value is attached to pipeline_start and hashed/serialised in SER construction: json.dumps raises TypeError", getattr(e, "lineno", vds.lineno))
+            continue
+        items = [(k, v, sc) for k, v in zip(e.keys, e.values)] + [(k, v, s2) for k, v, s2 in stores]
+        for k, v, s2 in items:
             kname = k.value if isinstance(k, ast.Constant) else "?"
-            # getattr(spec, "key", None) for from_context: the key is a mapping key of the YAML (str)
-            if isinstance(v, ast.Call) and call_attr(v) == "getattr" and kname == "key":
+            if kname == "key" and context_key_of_entry(v, s2):
                 continue
-            if isinstance(v, ast.Name) and v.id == vds.args.args[0].arg:
+            if is_entry_argument(v, s2):
                 continue
             n_leaves += 1
-            R.check(_leaf_safe(vds, v), r, SEM, "variable_domain_signature", f"{kname!r}: {norm(v)[:70]}",
-                    "a raw configuration value (e.g. a YAML date in a sweep sequence) is embedded unsanitised in metadata that is attached to pipeline_start and hashed/serialised in SER construction: json.dumps raises TypeError (traced run fails, or pipeline_start loses its required pipeline_spec_canonical)", v.lineno)
+            J.why = None
+            ok = J.safe(v, s2)
+            R.check(ok, r, SEM, qn, f"{kname!r}: {norm(v)[:70]}",
+                    "a raw configuration value (e.g. a YAML date in a sweep sequence) is embedded unsanitised in metadata that is attached to pipeline_start and hashed/serialised in SER construction: json.dumps raises TypeError (traced run fails, or pipeline_start loses its required pipeline_spec_canonical)"
+                    + (f" [unsanitised: `{norm(J.why)[:60]}`]" if not ok and J.why is not None and J.why is not v else ""), getattr(v, "lineno", vds.lineno))
     if n_leaves == 0:
-        raise AnalysisError("variable_domain_signature: no returned dict literals recognised")
+        raise AnalysisError("variable_domain_signature: no returned mappings recognised")
     bcs = repo.func(GRAPH, "build_canonical_spec")
     ok, why = _nodes_serialised_when_built(repo)
     R.check(ok, r, GRAPH, "build_canonical_spec", "json.dumps(canon) precedes nodes.append(...)", "canonical nodes are no longer serialised when built: a non-JSON parameter is only discovered when the trace is written" + (f" ({why})" if why else ""), bcs.lineno)
@@ -2141,43 +2910,73 @@ def _nodes_serialised_when_built(repo: Repo) -> Tuple[bool, str]:
     return True, ""
 
 
-def _serialised_value(repo: Repo, mod, fn: ast.AST, e: ast.AST, st: ast.AST, depth: int) -> Tuple[bool, str]:
+def _serialised_value(repo: Repo, mod, fn: ast.AST, e: ast.AST, st: ast.AST, depth: int, path: Tuple[int, ...] = ()) -> Tuple[bool, str]:
+    """Has the mapping *e* (or, with *path*, that element of the tuple *e*) evaluated in statement *st* of *fn* been
+    handed to json.dumps on every path since it came into being?"""
     g = CFG(fn)
     V = _Vals(g, fn)
     uses = g.nodes_for(st)
     if not uses:
         raise AnalysisError(f"{getattr(fn, 'name', '?')}: `{norm(st)[:60]}` is not on the control-flow graph")
-    for alt in V.resolve(e, uses):
-        val = V.binding(alt)
-        if isinstance(val, ast.Call):
-            # a copy of a serialised mapping?
-            src = _copied_from(val)
-            if src is None:
-                # a helper that was not inlined (e.g. called from a comprehension): what it returns
-                try:
-                    targets = [t for t in repo.resolve_call(mod, val) if isinstance(t[1], ast.FunctionDef)]
-                except Exception:
-                    targets = []
-                if len(targets) != 1 or depth >= 2:
-                    return False, f"`{norm(val)[:60]}` is not a mapping that was serialised"
-                cmod, callee = targets[0]
-                cn = nfunc(repo, cmod.rel, qualname_of(callee))
-                rets = [r for r in walk_no_nested(cn) if isinstance(r, ast.Return) and r.value is not None]
-                if not rets:
-                    return False, f"`{callee.name}` returns nothing"
-                for r in rets:
-                    ok, why = _serialised_value(repo, cmod, cn, r.value, r, depth + 1)
+
+    def into_callee(val: ast.Call, path: Tuple[int, ...]) -> Tuple[bool, str]:
+        # a helper that was not inlined (public, or called from a comprehension): what it returns
+        try:
+            targets = [t for t in repo.resolve_call(mod, val) if isinstance(t[1], ast.FunctionDef)]
+        except Exception:
+            targets = []
+        if len(targets) != 1 or depth >= 2:
+            return False, f"`{norm(val)[:60]}` is not a mapping that was serialised"
+        cmod, callee = targets[0]
+        cn = nfunc(repo, cmod.rel, qualname_of(callee))
+        rets = [r for r in walk_no_nested(cn) if isinstance(r, ast.Return) and r.value is not None]
+        if not rets:
+            return False, f"`{callee.name}` returns nothing"
+        for r in rets:
+            ok, why = _serialised_value(repo, cmod, cn, r.value, r, depth + 1, path)
+            if not ok:
+                return False, why
+        return True, ""
+
+    def one(alt: ast.AST, at: List[int], path: Tuple[int, ...], fuel: int = 8) -> Tuple[bool, str]:
+        if fuel <= 0:
+            return False, f"`{norm(alt)[:60]}` could not be followed"
+        info = V.info.get(alt.id) if isinstance(alt, ast.Name) else None
+        if info is not None and info[1] == "elem" and info[2] is not None:
+            # an unpacked element: <a>, <b> = <value>
+            d, _kind, v, p = info
+            if isinstance(v, ast.Call):
+                return into_callee(v, tuple(p) + path)  # the call as written (call resolution needs its place in the tree)
+            for x in V.resolve(v, [d.id]):
+                ok, why = one(x, [d.id], tuple(p) + path, fuel - 1)
+                if not ok:
+                    return False, why
+            return True, ""
+        if path:
+            if isinstance(alt, (ast.Tuple, ast.List)) and path[0] < len(alt.elts) and not any(isinstance(x, ast.Starred) for x in alt.elts):
+                return one(alt.elts[path[0]], at, path[1:], fuel - 1)
+            val = V.binding(alt)
+            if val is not alt:
+                site = V.binding_site(alt) or at
+                for x in V.resolve(val, site) if not isinstance(val, ast.Call) else [val]:
+                    ok, why = (into_callee(x, path) if isinstance(x, ast.Call) else one(x, site, path, fuel - 1))
                     if not ok:
                         return False, why
-                continue
+                return True, ""
+            if isinstance(alt, ast.Call):
+                return into_callee(alt, path)
+            return False, f"`{norm(alt)[:60]}`: the element put into the node list could not be followed"
+        val = V.binding(alt)
+        if isinstance(val, ast.Call) and _copied_from(val) is None:
+            return into_callee(val, ())
         # the objects whose serialisation vouches for this one: itself and what it was copied from
         vouch: Set[str] = set()
-        cur, site = alt, uses
+        cur, site = alt, at
         for _ in range(4):
             if isinstance(cur, ast.Name):
                 vouch.add(cur.id)
-            b = V.binding(cur)
-            src = _copied_from(b) if b is not cur else None
+            b = V.binding(cur)  # a name stands for what it was bound to; a copy written in place (`{**x, ..}`) is its own binding
+            src = _copied_from(b)
             if src is None:
                 break
             site = V.binding_site(cur) or site
@@ -2203,8 +3002,14 @@ def _serialised_value(repo: Repo, mod, fn: ast.AST, e: ast.AST, st: ast.AST, dep
         births = {V.info[root][0].id} if root in V.info else set()
         starts = [t for b_ in births for t, lab in g.succ[b_] if lab not in (EXC, BASE)] or [g.entry]
         normal_only = g.reach([t for t in starts if t not in dump_nodes], blocked=dump_nodes, skip_labels={EXC, BASE})
-        if any(u in normal_only for u in uses):
+        if any(u in normal_only for u in at):
             return False, f"a path reaches `{norm(st)[:50]}` without serialising the node"
+        return True, ""
+
+    for alt in V.resolve(e, uses):
+        ok, why = one(alt, uses, path)
+        if not ok:
+            return False, why
     return True, ""
 
 
@@ -2219,4 +3024,6 @@ def _copied_from(v: ast.AST) -> Optional[ast.AST]:
             return v.args[0]
     if isinstance(v, ast.Dict) and v.keys and v.keys[0] is None:
         return v.values[0]
+    if isinstance(v, ast.BinOp) and isinstance(v.op, ast.BitOr):  # x | {...}: a new mapping that starts as a copy of x
+        return v.left
     return None
